@@ -1053,6 +1053,53 @@ class Ctx:
                 out.append((bb, s, src, dst))
         return out
 
+    def release_points(self, body, call, payload_type_prefix):
+        """blocks at which the value obtained from `call` (e.g. a lock guard) is released: `drop` terminators (and calls
+        to mem::drop) on a local that holds the payload (type starts with payload_type_prefix) and has not been moved
+        out wholesale before. Returns (holders, [(bb, local)])"""
+        derived = self._derived(body, call, ())
+        holders = [l for l in derived if l < len(body.locals) and str(body.locals[l].get("t", "")).startswith(payload_type_prefix)]
+        moved = {}
+        for bb, j, s in body.stmts():
+            if s["k"] == "assign" and s["rv"]["k"] == "use" and s["rv"]["op"].get("k") == "move" and not s["rv"]["op"].get("p"):
+                l = op_local(s["rv"]["op"])
+                if l in holders:
+                    moved.setdefault(l, []).append(bb)
+        for c in body.calls:
+            for a in c.args:
+                if a.get("k") == "move" and not a.get("p") and op_local(a) in holders:
+                    moved.setdefault(op_local(a), []).append(c.bb)
+        rel = []
+        for i in sorted(body.live):
+            t = body.blocks[i]["t"]
+            if t["k"] == "drop" and t.get("pl") and not t["pl"].get("p") and t["pl"]["l"] in holders:
+                l = t["pl"]["l"]
+                # a drop after a whole move on every path is a no-op (drop elaboration removes it)
+                if moved.get(l) and body.path([0], [i], cut_blocks=moved[l]) is None:
+                    continue
+                rel.append((i, l))
+        for c in body.calls:
+            if c.bb in body.live and c.name in ("drop", "forget") and any(op_local(a) in holders for a in c.args):
+                rel.append((c.bb, op_local(c.args[0])))
+        return holders, rel
+
+    def held_across(self, oid, call, critical, payload_type_prefix, detail=""):
+        """PAIR (typestate): the guard returned by `call` is still alive at every `critical` call: no release point of the
+        guard lies on a path from the acquisition to a critical call"""
+        body = call.body
+        holders, rel = self.release_points(body, call, payload_type_prefix)
+        if not holders:
+            return self.add(oid, "PAIR", False, f"no local of type {payload_type_prefix}.. receives the result of {call.path} in {body.defq}: {detail}", site_key=f"{body.defq}:no-holder")
+        early = []
+        for (bb, l) in rel:
+            t = body.blocks[bb]["t"].get("t")
+            starts = [t] if t is not None else body.succs(bb)
+            for c in critical:
+                if body.path(starts, [c.bb]) is not None:
+                    early.append(f"{body.local_name(l) or '_%d' % l} released at line {body.blocks[bb]['t'].get('line')} before {c.name} ({c.where()})")
+        return self.add(oid, "PAIR", not early, detail + ("; " + "; ".join(sorted(set(early))) if early else ""),
+                        sites=[f"{body.defq} holder {body.local_name(h) or '_%d' % h}" for h in holders], site_key=f"{body.defq}:{call.path}:held")
+
     def returned_locals(self, body):
         """ids of the locals whose value is copied / moved / wrapped (Ok(..), Some(..), tuple) into the return place"""
         seen, work = set(), [0]
